@@ -390,7 +390,13 @@ async fn fabitn(
     debug!("PI_aBit^n protocol of WRK17b");
     // Step 1) Pick random bit-string x of length lprime.
     let three_rho = 3 * RHO;
-    let lprime = l + three_rho;
+    // The 3 * RHO test combinations of step 3 are broadcast, masked only by the bits that are
+    // discarded in step 4. With exactly as many discarded bits as combinations, the combinations
+    // restricted to the discarded positions form a random square matrix over GF(2), which is
+    // singular with probability ~0.71: some XOR of the broadcast values is then a parity of the
+    // returned bits alone. With RHO more discarded bits than combinations this happens with
+    // probability at most 2^-RHO.
+    let lprime = l + three_rho + RHO;
     let mut x: Vec<bool> = (0..lprime).map(|_| random()).collect();
     debug!("Generated local bitstring x of length {}", lprime);
 
